@@ -12,10 +12,28 @@ import Golib.Proof.C17Loops
 import Golib.Proof.C17Spec
 import Golib.Proof.C17Rev
 import Golib.Proof.C17Mask
+import Golib.Proof.C17Case
+import Golib.Proof.C17Utf8Valid
 import Golib.Findings.C17
 
 namespace Golib.C17
 open Golib.Utf8
+
+/-- The quantifier of the theorems below: a byte string is valid UTF-8 (`utf8.Valid`)
+exactly when it is `encode rs` for a list `rs` of valid scalar values (and then
+`rs = []rune(s)`).  So "for all `rs` with `validRune`" = "for every valid UTF-8 string". -/
+theorem c17_valid_iff_encode (s : List Nat) :
+    valid s = true ↔ ∃ rs : List Int, (∀ r ∈ rs, validRune r = true) ∧ s = encode rs := by
+  constructor
+  · intro h
+    exact ⟨runes s, (valid_eq_encode s h).1, (valid_eq_encode s h).2.symm⟩
+  · rintro ⟨rs, hv, rfl⟩
+    exact valid_encode rs hv
+
+/-- Non-vacuity: strings with 1-, 2-, 3- and 4-byte runes are valid; a truncated 3-byte
+sequence and a lone `0xff` are not. -/
+example : valid (encode [0x61, 0xe9, 0x4f60, 0x1f600]) = true ∧ valid [0xe4, 0xbd] = false ∧
+    valid [0x61, 0xff] = false := by decide
 
 /-- No function panics (and no model loop runs out of fuel) on ANY byte string — valid
 UTF-8 or not — and for all integer arguments (the property asks for the non-negative ones;
@@ -182,5 +200,40 @@ theorem c17_results_valid (rs ms : List Int) (hv : ∀ r ∈ rs, validRune r = t
     rw [c17_removeRunes rs hv p] at ho
     cases ho
     exact sub_v _ (fun r hr => (List.mem_filter.mp hr).1)
+
+/-- `UcFirst` / `LcFirst` re-case exactly a leading ASCII letter and leave every other
+string (empty, or starting with any other rune — multi-byte ones included) unchanged, so
+their results are valid UTF-8 as well.  (Not spelled out in the property text; proved
+because both functions are among the observed ones.) -/
+theorem c17_ucfirst_lcfirst (r : Int) (rs : List Int) (hr : validRune r = true) :
+    ucFirst (encode (r :: rs)) = some (encode ((if 97 ≤ r ∧ r ≤ 122 then r - 32 else r) :: rs)) ∧
+    lcFirst (encode (r :: rs)) = some (encode ((if 65 ≤ r ∧ r ≤ 90 then r + 32 else r) :: rs)) ∧
+    ucFirst [] = some [] ∧ lcFirst [] = some [] :=
+  ⟨ucFirst_encode r rs hr, lcFirst_encode r rs hr, rfl, rfl⟩
+
+example : ucFirst (encode [0x7a, 0x4f60]) = some (encode [0x5a, 0x4f60]) := by decide
+example : ucFirst (encode [0xe9, 0x61]) = some (encode [0xe9, 0x61]) := by decide
+
+/-- `CamelCaseToSnake(SnakeToCamelCase(x, firstUp)) = x` for every lower-case snake_case
+identifier `x ∈ [a-z][a-z0-9]*(_[a-z][a-z0-9]*)*` (`isSnakeIdent`, a two-state automaton on
+bytes) and both values of `firstUp`.  The grammar is the largest one for which the
+statement is true: see the counter-examples below. -/
+theorem c17_snake_camel_roundtrip (x : List Nat) (firstUp : Bool) (h : isSnakeIdent x = true) :
+    (snakeToCamel x firstUp).bind camelToSnake = some x :=
+  roundtrip_ident x firstUp h
+
+/-- Non-vacuity: `foo_bar1` is in the grammar; `FooBar1` / `fooBar1` are the intermediate values. -/
+example : isSnakeIdent [102, 111, 111, 95, 98, 97, 114, 49] = true := by decide
+example : snakeToCamel [102, 111, 111, 95, 98, 97, 114, 49] true = some [70, 111, 111, 66, 97, 114, 49] := by decide
+example : snakeToCamel [102, 111, 111, 95, 98, 97, 114, 49] false = some [102, 111, 111, 66, 97, 114, 49] := by decide
+/-- `foo__bar`, `foo_`, `foo_1` are outside the grammar and are genuine counter-examples of
+the round trip (so the hypothesis cannot be weakened to "lower-case letters, digits, `_`"). -/
+example : isSnakeIdent [102, 111, 111, 95, 95, 98, 97, 114] = false ∧
+    (snakeToCamel [102, 111, 111, 95, 95, 98, 97, 114] false).bind camelToSnake
+      ≠ some [102, 111, 111, 95, 95, 98, 97, 114] := by decide
+example : isSnakeIdent [102, 111, 111, 95] = false ∧
+    (snakeToCamel [102, 111, 111, 95] false).bind camelToSnake ≠ some [102, 111, 111, 95] := by decide
+example : isSnakeIdent [102, 111, 111, 95, 49] = false ∧
+    (snakeToCamel [102, 111, 111, 95, 49] false).bind camelToSnake ≠ some [102, 111, 111, 95, 49] := by decide
 
 end Golib.C17
